@@ -456,11 +456,11 @@ pub fn run(args: &Args) -> i32 {
         .require_label("signer-checked")
         .require_label("phi:0.93-0.999");
     let t = check.tier;
-    check.section("decision", decision_strategy(), t.pick(20_000, 1_500_000), decision_case);
-    check.section("pairs", pair_strategy(), t.pick(8000, 600_000), pair_case);
+    check.section("decision", decision_strategy, t.pick(20_000, 1_500_000), decision_case);
+    check.section("pairs", pair_strategy, t.pick(8000, 600_000), pair_case);
     check.section(
         "public",
-        (world_strategy(5, 24), prop::collection::vec(any::<u8>(), 0..48)),
+        || (world_strategy(5, 24), prop::collection::vec(any::<u8>(), 0..48)),
         t.pick(1000, 40_000),
         public_case,
     );
